@@ -199,9 +199,11 @@ func (am AppModule) EndBlock(goCtx context.Context) ([]abci.ValidatorUpdate, err
 
 	// Execute EndBlock logic for the Reward Distribution sub-protocol
 	am.keeper.EndBlockRD(ctx)
+	ccvtypes.VerifTrace(ctx, "CEndRD")
 
 	// panics on invalid packets and unexpected send errors
 	am.keeper.SendPackets(ctx)
+	ccvtypes.VerifTrace(ctx, "CEndSend")
 
 	data, ok := am.keeper.GetPendingChanges(ctx)
 	if !ok {
